@@ -368,6 +368,11 @@ def frame_agreement(ctx, rid):
                "the snapshot that apply_rewrite splices comes from %s, not from the document text (Root::get_text): Diff ranges are absolute document offsets, "
                "a node's text() starts at the node (tree-sitter's root node skips leading whitespace), so every edit is shifted" % names, where=f.loc(st[3]))
     ctx.floor(rid, "Diffs snapshot sites", n_snap, 2)
+    read_file_identity(ctx, rid)
+
+
+def read_file_identity(ctx, rid):
+    prog = ctx.prog
     # …and the text that is scanned is the text on disk: read_file hands out exactly what read_to_string returned (offsets reported
     # by --json, by `sg test` and by the library refer to the file's bytes; a normalised copy — BOM stripped, line ends changed —
     # shifts every range and is written back by --update-all in place of the original bytes)
@@ -383,3 +388,4 @@ def frame_agreement(ctx, rid):
                "Ok(content) is the very String returned by std::fs::read_to_string" if good else
                "read_file returns %s instead of the string read from disk: the scanned text is not the file's text, so byte ranges differ from the other front ends and --update-all rewrites bytes no edit touched" %
                sorted({describe_origin(ff, o) for ff, o in oks}), where=rf.loc())
+
